@@ -89,3 +89,16 @@ package dns
 //@ wirefmt packTsigWire Name:pubname Class:u16 Ttl:u32 Algorithm:pubname TimeSigned:u48 Fudge:u16 Error:u16 OtherLen:u16 OtherData:hex [C11]
 //@ wirefmt packMacWire MACSize:u16 MAC:hex [C11]
 //@ wirefmt packTimerWire TimeSigned:u48 Fudge:u16 [C11]
+
+// the exported entry points hand their arguments on unchanged; the time compared against is the current time
+//@ func TsigGenerate [C11]
+//@   opt no-safety
+//@   callsite "TsigGenerateWithProvider" same: arg0 == m && arg2 == requestMAC && arg3 == timersOnly
+//@ func TsigVerify [C11]
+//@   opt no-safety
+//@   callsite "tsigVerify" same: same(arg0, msg) && arg2 == requestMAC && arg3 == timersOnly && (callres("Unix") >= 0 ==> arg4 == callres("Unix"))
+//@   exit res: ret0 == callres("tsigVerify")
+//@ func TsigVerifyWithProvider [C11]
+//@   opt no-safety
+//@   callsite "tsigVerify" same: same(arg0, msg) && arg1 == provider && arg2 == requestMAC && arg3 == timersOnly && (callres("Unix") >= 0 ==> arg4 == callres("Unix"))
+//@   exit res: ret0 == callres("tsigVerify")
